@@ -305,8 +305,13 @@ class Popen(AgentExecutingComponent):
         self._watch_queue.put(task)
 
         # now that the task cancellation cb would succeed, let's make sure that
-        # no cancellation request sneaked in before the task got started
-        if self.is_canceled(task) is True:
+        # no cancellation request sneaked in before the task got started.  Only
+        # `cancel_task` hands the task on (it may lose the race against the
+        # watcher), so the task must not be advanced to CANCELED here.
+        with self._cancel_lock:
+            canceled = tid in self._cancel_list
+
+        if canceled:
             self.cancel_task(task)
 
 
